@@ -7,7 +7,7 @@ from cylc.flow.cycling.integer import IntegerPoint
 META = dict(
     level='model_checking',
     text='Bounded symbolic execution, on a fixture with six recurrences '
-         '(R1, P3, +P1/P4, R3/4/P4, P2!6, R1/$), offsets (-P3, +P1 future '
+         '(R1, P3, +P1/P4, R3/4/P4, P2!6, R1/$, and R1/-P1 which resolves before the initial point), offsets (-P3, +P1 future '
          'trigger, -P1) and initial/final points 2/12, of the real '
          'TaskPool.can_be_spawned, TaskDef.is_valid_point, spawn_on_output -> '
          'spawn_task (children of every parent instance and output), '
@@ -40,7 +40,7 @@ META = dict(
 
 CFG = fx.cfg('seq')
 ICP, FCP = 2, 12
-NAMES = ['a', 'b', 'c', 'd', 'e', 'f', 'fin', 'start']
+NAMES = ['a', 'b', 'c', 'd', 'e', 'f', 'fin', 'start', 'pre']
 
 
 def member(name, p):
@@ -59,6 +59,8 @@ def member(name, p):
         return p == FCP                              # R1/$
     if name == 'start':
         return p == ICP                              # R1
+    # 'pre' (R1/-P1) resolves to point 1, before the initial point: it is on
+    # its sequence but never within the workflow bounds
     return False
 
 
@@ -91,7 +93,7 @@ def children(name, p, output):
     return res
 
 
-def bounds(ni: int, p: int) -> bool:
+def bounds(ni: int, p: int, manual: bool) -> bool:
     """
     pre: sl(ni=ni)
     pre: 0 <= ni < len(NAMES) and 0 <= p <= 14
@@ -103,8 +105,12 @@ def bounds(ni: int, p: int) -> bool:
     # (symbolic-point arithmetic of IntegerSequence.is_valid is C16's job;
     # here the point is case-split and the real code runs untraced)
     p = fork_int(p, 0, 14)
+    manual = fork_bool(manual)
     with concrete():
         point = IntegerPoint(str(p))
+        if manual:
+            # the instance was named in a manual trigger of a pre-start task
+            pool.pre_start_tasks_to_trigger.add((name, point))
         got = pool.can_be_spawned(name, point)
         return got == member(name, p) and not pool.can_be_spawned(
             'nosuch', point)
@@ -227,14 +233,15 @@ def OBLIGATIONS(tier):
     big = tier == 'thorough'
     t = 1500 if big else 160
     obs = [Ob('next_parentless', 'next_parentless', timeout=t)]
-    for ni in range(0, len(NAMES), 2):
-        for k in (ni, ni + 1):
-            obs.append(Ob(f'bounds[{NAMES[k]}]', 'bounds', timeout=t,
-                          twin=(k == 0), slice={'ni': k}))
+    for k in range(len(NAMES)):
+        obs.append(Ob(f'bounds[{NAMES[k]}]', 'bounds', timeout=t,
+                      twin=(k == 0), slice={'ni': k}))
     for ni in range(len(NAMES)):
+        if NAMES[ni] == 'pre':
+            continue                # never within bounds: no valid instance
         obs.append(Ob(f'spawn_children[{NAMES[ni]}]', 'spawn_children',
                       timeout=t, slice={'ni': ni},
-                      twin=NAMES[ni] not in ('d', 'e', 'f', 'fin')))
+                      twin=NAMES[ni] not in ('d', 'e', 'f', 'fin', 'pre')))
     for sp in range(1, 14):
         obs.append(Ob(f'stop_point[sp={sp}]', 'stop_point', timeout=t,
                       twin=(sp == 1), slice={'sp': sp}))
@@ -246,8 +253,8 @@ def VALIDATE():
     for name in NAMES:
         td = CFG.get_taskdef(name)
         for p in range(0, 15):
-            assert td.is_valid_point(IntegerPoint(str(p))) == member(
-                name, p), (name, p)
+            assert td.is_valid_point(IntegerPoint(str(p))) == (member(
+                name, p) or (name, p) == ('pre', 1)), (name, p)
             n += 1
     SLICE['ni'] = 0
     assert spawn_children(0, 5, 0, True) and spawn_children(0, 5, 1, True)
